@@ -21,6 +21,7 @@ pub enum LT {
     OpFn,           // `fn(f64, f64) -> Value`: an operator closure handed to binary_op_impl
     VmT,            // the abstract interpreter state
     Handler,        // object.rs ExcHandler
+    ClosureRec,     // a `Gc<ObjClosure>` as the call mechanism sees it: Rs.ClosureRec
     FiberId,        // a `Gc<RefCell<ObjFiber>>` / `Root<..>` / `*mut ObjFiber`: the number that names the fiber
 }
 
@@ -52,6 +53,7 @@ impl LT {
             LT::VmT => "Rs.Vm".into(),
             LT::Handler => "Rs.Handler".into(),
             LT::FiberId => "Nat".into(),
+            LT::ClosureRec => "Rs.ClosureRec".into(),
         }
     }
     fn ity(&self) -> Option<&'static str> {
